@@ -18,7 +18,7 @@ from vlib import core
 from vlib.coqterm import App
 from props import c12gen as G
 
-HEADER = 'From Coq Require Import List Arith.\nFrom DV Require Import C12.Model.\nImport ListNotations.\n'
+HEADER = 'From Coq Require Import List Arith.\nFrom DV Require Import C12.Model C12.Relation.\nImport ListNotations.\n'
 LIMIT_MS = 30000
 GUARD = 'guard %d 8 model'
 
@@ -60,6 +60,25 @@ def settle(ctx, req, r, rel):
 
 def nat_list(xs):
     return '[' + '; '.join(str(x) for x in xs) + ']'
+
+
+def relation_cases():
+    """boxed relations with their children in every document order, as XML and as the term coq/C12/Relation.v is asked about (load: Ok | Err)"""
+    import itertools
+    out = []
+    inp = '  <inputData name="i0" id="_i0"><variable name="i0" typeRef="number"/></inputData>\n'
+    lit = lambda k: '<literalExpression><text>i0 + %d</text></literalExpression>' % k
+    for n_col in (0, 1, 2, 3):
+        for widths in ([], [n_col], [max(0, n_col - 1)], [n_col + 1], [n_col, n_col], [n_col, n_col + 1], [0]):
+            kids = [('c', j) for j in range(n_col)] + [('r', w) for w in widths]
+            orders = sorted(set(itertools.permutations(range(len(kids))))) if len(kids) <= 4 else [tuple(range(len(kids))), tuple(reversed(range(len(kids))))]
+            for oi, order in enumerate(orders):
+                rel = '    <relation>' + ''.join('<column name="c%d"/>' % kids[k][1] if kids[k][0] == 'c' else '<row>' + ''.join(lit(q) for q in range(kids[k][1])) + '</row>'
+                                                 for k in order) + '</relation>\n'
+                term = 'load [%s]' % '; '.join('CCol' if kids[k][0] == 'c' else 'CRow %d' % kids[k][1] for k in order)
+                out.append(('relation-model-cols%d-rows%s-order%d' % (n_col, '.'.join(map(str, widths)) or 'none', oi),
+                            G.HDR + inp + G.gen_decision(0, [('i', 0)], '', table=rel) + '</definitions>\n', term))
+    return out
 
 
 def predicted_cases():
@@ -142,6 +161,8 @@ def run(ctx):
     rng = ctx.rng
     pc = predicted_cases()
     model = ctx.run_model(HEADER, [c[4] for c in pc], shard_size=max(8, len(pc) // 16 + 1), tag='p')
+    rc = relation_cases()
+    rel_model = ctx.run_model(HEADER, [c[2] for c in rc], shard_size=max(8, len(rc) // 8 + 1), tag='r')
     fam = G.table_family(rng, ctx.pick(600, None), ctx.pick(400, 5000))
     fam_model = ctx.run_model(HEADER, [c[2] for c in fam], shard_size=max(8, len(fam) // 16 + 1), tag='t')
     files = G.example_files(core.REPO)
@@ -150,6 +171,8 @@ def run(ctx):
     def produce():
         for (label, xml, inv, inputs, _, lenient), m in zip(pc, model):
             yield {'tag': 'predicted', 'label': label, 'xml': xml, 'calls': [[n, c] for n in inv for c in G.ctx_texts(inputs)], 'model': m.name if isinstance(m, App) else str(m), 'lenient': lenient}
+        for (label, xml, term), m in zip(rc, rel_model):
+            yield {'tag': 'relation', 'label': label, 'xml': xml, 'calls': [['d0', c] for c in G.ctx_texts(['i0'])], 'model': m.name if isinstance(m, App) else str(m), 'term': term}
         for (label, xml, _, t), m in zip(fam, fam_model):
             yield {'tag': 'table', 'label': label, 'xml': xml, 'calls': [['d0', c] for c in G.TABLE_CONTEXTS], 'model': m, 'table': t}
         for label, xml, inv, inputs in G.generated_models():
@@ -228,6 +251,12 @@ def run(ctx):
                     ctx.nontrivial.add(c['label'])
                 if c['tag'] == 'table':
                     table_compare(ctx, c, r, build, stats['tables'])
+                if c['tag'] == 'relation':
+                    # coq/C12/Relation.v: accepted exactly when every row is as wide as the relation has columns, wherever the columns stand
+                    got = 'Ok' if (r['parse'] == 'ok' and r['build'] == 'ok') else 'Err'
+                    if got != c['model']:
+                        ctx.corr_broken('loading a relation (C12/Relation.v load)', {'model_xml': c['label'], 'term': c['term'], 'build': build},
+                                        {'parse': r['parse'], 'build': r['build']}, c['model'])
                 if c['tag'] == 'predicted' and r['parse'] == 'ok':
                     want = {'Ok': 'ok', 'Err': 'err'}.get(c['model'])
                     if want is None:
@@ -296,6 +325,10 @@ MANIFEST = dict(
          "has as many entries as the table has clauses (C12_table_build_total, _ok_iff); the evaluation reaches no Panic arm for every table, hit policy and pattern of matching rules (C12_table_eval_total, no hypothesis needed); "
          "both statements are false of the earlier code: witnesses C12_table_build_orig_refuted, C12_table_eval_orig_refuted, and C12_table_eval_orig2_panic_iff says exactly when the code before d6b0858 panicked "
          "(COLLECT with SUM/MIN/MAX, at most one named output clause, a matching rule without output entry). What is NOT in these theorems: FEEL values, the texts of the entries, the XML reader. "
+         "Boxed relations (coq/C12/Relation.v: <column> / <row> children in any document order, rows of any width; parse_optional_relation and build_relation_evaluator): loading never panics "
+         "(C12_relation_total), a relation is accepted exactly when every row is as wide as the relation has columns (C12_relation_ok_iff), where the columns stand among the rows is irrelevant "
+         "(C12_relation_order_irrelevant); the two-site variant of a seeded change (rows compared with the columns read so far + elements indexed per column) cannot panic through either site alone "
+         "and does through both (C12_relation_single_site_safe, C12_relation_two_sites_refuted); the check compares load with the real loader on ~420 relations in both builds. "
          "Requirements: the cycle search of check_cyclic_dependencies (depth-first, explicit stack; model dfs_loop/dfs_all) is EXACT on every graph of any size (C12_cycle_check_exact: it ends within its fuel, reports a cycle iff some node of the collected graph is on a cycle, "
          "otherwise returns; duplicate rows and targets, self references, dangling targets and any order of rows included); hence, with no numbering assumed (C12_total): "
          "every model with a cycle is rejected with an error before any recursion, and every other model builds to Ok/Err (decided by its tables alone). C12_built_model_evaluates / C12_evaluate_total say: for a built model the recursion over the requirements of an "
